@@ -228,4 +228,18 @@ theorem stale_orphaning_rewrite_cex :
     (entryRun (3, none) [.orphanRead, .use, .orphanWrite]).1 = 3 ∧
     (entryRun (3, none) [.orphan, .use]).1 = 2 ∧ (entryRun (3, none) [.use, .orphan]).1 = 2 := by decide
 
+/-! ### a use limit needs counted uses -/
+
+/-- **Every token that is issued with a use limit n authorises at most n requests** — because the only tokens whose
+uses are not counted (batch tokens) are never issued with a limit. -/
+theorem limit_needs_counted_uses (batch : Bool) (n k : Nat) (hn : n ≠ 0) (h : createAccepted batch n = true) :
+    authorisedOf batch n k ≤ n := by
+  cases batch
+  · simp [authorisedOf, hn]; omega
+  · simp [createAccepted, hn] at h
+
+/-- **Finding F85 (repaired)**: a batch token issued with `num_uses = 1` (accepted when `explicit_max_ttl=0` was sent
+along, or through a default-batch role) authorises every request. -/
+theorem batch_token_limit_unenforced_cex : authorisedOf true 1 4 = 4 ∧ createAccepted true 1 = false := by decide
+
 end C19
